@@ -86,6 +86,7 @@ def _combine(k1, k2):
         props=["C09"],
     )
     c.enum = enum_combine
+    c.no_callee = True        # one contract per pair of dictionary sizes: not a contract for an arbitrary call site
     c.label = f"{k1} then {k2} swap(s)"
     return c
 
@@ -187,3 +188,175 @@ def _nonadj(d, rev, conv):
 
 NONADJ = [_nonadj(d, rev, conv) for d in (2, 3, 4, 5) for rev in (False, True) for conv in ("Rx", "H")]
 CONTRACTS += NONADJ
+
+
+# ---------------------------------------------------------------------------------------------- unpack_circuit_spec
+def _spec_list(kinds):
+    """a circuit spec with a concrete spine: components of the given kinds (their fields symbolic); a Group holds an arbitrary inner list"""
+    def build(ex, name):
+        import z3
+        from vf.pyvc.values import CDict, CList, Obj
+        items = []
+        for i, k in enumerate(kinds):
+            p = f"{name}[{i}]"
+            if k == "PS":
+                items.append(ex.alloc(Obj("PhaseShifter", (("mode", z3.Int(f"{p}.mode")), ("phi", z3.Real(f"{p}.phi")))), p))
+            elif k == "SW2":
+                a, b = z3.Int(f"{name}_{i}_a"), z3.Int(f"{name}_{i}_b")        # the transposition a <-> b (named so that the contract text can refer to them)
+                items.append(ex.alloc(Obj("ModeSwaps", (("swaps", ex.alloc(CDict(((a, b), (b, a))), f"{p}.swaps")),)), p))
+            elif k == "LOSS":
+                items.append(ex.alloc(Obj("Loss", (("mode", z3.Int(f"{p}.mode")), ("loss", z3.Real(f"{p}.loss")))), p))
+            elif k == "BS":
+                items.append(ex.alloc(Obj("BeamSplitter", (("mode_1", z3.Int(f"{p}.mode_1")), ("mode_2", z3.Int(f"{p}.mode_2")), ("reflectivity", z3.Real(f"{p}.reflectivity")),
+                                                            ("convention", "Rx"))), p))
+            else:
+                inner_kinds = k[1]
+                inner = _spec_list(inner_kinds)(ex, f"{p}.circuit_spec")
+                her = ex.alloc(CDict((("input", ex.make(f"{p}.heralds.input", "dict[int,int]", f"{p}.heralds.input")),
+                                      ("output", ex.make(f"{p}.heralds.output", "dict[int,int]", f"{p}.heralds.output")))), f"{p}.heralds")
+                items.append(ex.alloc(Obj("Group", (("circuit_spec", inner), ("name", "g"), ("mode_1", z3.Int(f"{p}.mode_1")), ("mode_2", z3.Int(f"{p}.mode_2")), ("heralds", her))), p))
+        return ex.alloc(CList(tuple(items)), name)
+    build.label = "spec " + repr(kinds)
+    return build
+
+
+def _flat(kinds, path="circuit_spec"):
+    """access paths of the non-group components in flattening order"""
+    out = []
+    for i, k in enumerate(kinds):
+        if isinstance(k, tuple):
+            out += _flat(k[1], f"{path}[{i}].circuit_spec")
+        else:
+            out.append(f"{path}[{i}]")
+    return out
+
+
+def replay_unpack(inp):
+    return None
+
+
+def _unpack(kinds, label):
+    flat = _flat(kinds)
+    c = Contract(
+        target=f"{UTIL}:unpack_circuit_spec",
+        types={"circuit_spec": _spec_list(kinds)},
+        requires=[], modifies=[],
+        ensures={
+            # structure postcondition of the property: no group remains
+            "no_group_remains": f"len(result) == {len(flat)} and " + " and ".join([f"not isinstance(result[{j}], Group)" for j in range(len(flat))] or ["True"]),
+            # the components of the groups take the group's place, in order (the same component objects: unpacking does not copy or reorder)
+            "flattened_in_order": " and ".join([f"result[{j}] is {pth}" for j, pth in enumerate(flat)] or ["True"]),
+            "a_new_list": "fresh_ref(result)",
+            "argument_unchanged": f"len(circuit_spec) == {len(kinds)}",
+        },
+        raises={}, props=["C09", "C08"],
+    )
+    c.no_callee = True
+    c.label = label
+    return c
+
+
+G = lambda *inner: ("G", tuple(inner))       # noqa: E731
+UNPACK = [
+    _unpack((), "empty spec"),
+    _unpack(("PS", "BS"), "no group"),
+    _unpack((G("PS", "BS"),), "a single group (the whole spec)"),
+    _unpack(("BS", G("PS"), "PS"), "group between components"),
+    _unpack((G(), "PS"), "empty group"),
+    _unpack((G("PS", G("BS", "PS")), "BS"), "group inside a group"),
+    _unpack((G(G(G("PS"))),), "groups nested three deep"),
+    _unpack((G("PS"), G("BS")), "two groups"),
+]
+CONTRACTS += UNPACK
+
+
+# convert_non_adj_beamsplitters on components it must leave alone, and inside groups
+def _passthrough():
+    c = Contract(
+        target=f"{UTIL}:convert_non_adj_beamsplitters",
+        types={"circuit_spec": _spec_list(("PS", "BS"))},
+        requires=["abs(circuit_spec[1].mode_2 - circuit_spec[1].mode_1) == 1"],
+        modifies=[],
+        ensures={
+            "same_length": "len(result) == 2 and isinstance(result[0], PhaseShifter) and isinstance(result[1], BeamSplitter)",
+            "copies_with_the_same_settings": "fresh_ref(result[0]) and fresh_ref(result[1]) and result[0].mode == circuit_spec[0].mode and result[0].phi == circuit_spec[0].phi and "
+                                             "result[1].mode_1 == circuit_spec[1].mode_1 and result[1].mode_2 == circuit_spec[1].mode_2 and "
+                                             "result[1].reflectivity == circuit_spec[1].reflectivity and result[1].convention == circuit_spec[1].convention",
+        },
+        raises={}, props=["C09"],
+    )
+    c.no_callee = True
+    c.label = "phase shifter and adjacent beam splitter: copied unchanged"
+    return c
+
+
+def _in_group():
+    E = "circuit_spec[0].circuit_spec[1]"
+    R = "result[0].circuit_spec"
+    c = Contract(
+        target=f"{UTIL}:convert_non_adj_beamsplitters",
+        types={"circuit_spec": _spec_list((G("PS", "BS"),))},
+        requires=[f"{E}.mode_1 >= 0", f"{E}.mode_2 == {E}.mode_1 + 2", f"0 <= {E}.reflectivity and {E}.reflectivity <= 1"],
+        modifies=[],
+        ensures={
+            "group_kept": "len(result) == 1 and isinstance(result[0], Group) and fresh_ref(result[0]) and result[0].mode_1 == circuit_spec[0].mode_1 and result[0].mode_2 == circuit_spec[0].mode_2",
+            # the beam splitter inside the group is replaced too (the property asks for no non-adjacent beam splitter at any depth)
+            "inner_replaced": f"len({R}) == 4 and isinstance({R}[0], PhaseShifter) and isinstance({R}[1], ModeSwaps) and isinstance({R}[2], BeamSplitter) and isinstance({R}[3], ModeSwaps) "
+                              f"and abs({R}[2].mode_2 - {R}[2].mode_1) == 1",
+            "original_group_untouched": "len(circuit_spec[0].circuit_spec) == 2 and isinstance(circuit_spec[0].circuit_spec[1], BeamSplitter) and "
+                                        f"{E}.mode_2 == old({E}.mode_2)",
+        },
+        raises={}, props=["C09", "C08"],
+        inline=["convert_non_adj_beamsplitters"],      # the recursive call on the group's (concrete-spine) inner list is executed from the real source
+    )
+    c.no_callee = True
+    c.label = "non-adjacent beam splitter inside a group"
+    return c
+
+
+CONTRACTS += [_passthrough(), _in_group()]
+
+
+
+# ---------------------------------------------------------------------------------------------- compress_mode_swaps
+def _compress(middle, label):
+    """[swap a<->b, <middle component>, swap c<->d] with all modes symbolic: the later swap is merged into the first exactly when the component
+    in between touches none of its modes; otherwise the spec is returned unchanged (as copies)"""
+    S0, M, S1 = "circuit_spec[0]", "circuit_spec[1]", "circuit_spec[2]"
+    a, b, c_, d = "circuit_spec_0_a", "circuit_spec_0_b", "circuit_spec_2_a", "circuit_spec_2_b"
+    touched = {"PS": [f"{M}.mode"], "LOSS": [f"{M}.mode"], "BS": [f"{M}.mode_1", f"{M}.mode_2"],
+               "GROUP3": [f"{M}.mode_1", f"({M}.mode_1 + 1)", f"({M}.mode_1 + 2)"]}[middle]      # a group blocks every mode of its range mode_1..mode_2
+    kind = G("PS") if middle == "GROUP3" else middle
+    blocked = "(" + " or ".join(f"{t} == {x}" for t in touched for x in (c_, d)) + ")"
+    comp = lambda x: _img2(c_, d, _img2(a, b, x))       # noqa: E731
+    xs = [a, b, c_, d]
+    merged = " and ".join(f"(({x} in result[0].swaps) == ({comp(x)} != {x})) and implies({x} in result[0].swaps, result[0].swaps[{x}] == {comp(x)})" for x in xs)
+    con = Contract(
+        target=f"{UTIL}:compress_mode_swaps",
+        types={"circuit_spec": _spec_list(("SW2", kind, "SW2")), a: "int", b: "int", c_: "int", d: "int"},
+        requires=[f"{a} != {b}", f"{c_} != {d}", f"{a} >= 0 and {b} >= 0 and {c_} >= 0 and {d} >= 0"] + ([f"{M}.mode_1 != {M}.mode_2"] if middle == "BS" else []) +
+                 ([f"{M}.mode_2 == {M}.mode_1 + 2"] if middle == "GROUP3" else []),
+        modifies=[],
+        ensures={
+            "not_longer": "len(result) <= 3",
+            "blocked_swap_stays": f"implies({blocked}, len(result) == 3 and isinstance(result[0], ModeSwaps) and isinstance(result[2], ModeSwaps) and "
+                                  f"result[0].swaps[{a}] == {b} and result[0].swaps[{b}] == {a} and len(result[0].swaps) == 2 and "
+                                  f"result[2].swaps[{c_}] == {d} and result[2].swaps[{d}] == {c_} and len(result[2].swaps) == 2)",
+            "free_swap_is_merged": f"implies(not {blocked}, len(result) == 2 and isinstance(result[0], ModeSwaps) and not isinstance(result[1], ModeSwaps) and {merged})",
+            "argument_unchanged": f"len(circuit_spec) == 3 and len({S0}.swaps) == 2 and {S0}.swaps[{a}] == {b} and {S0}.swaps[{b}] == {a} and len({S1}.swaps) == 2",
+        },
+        raises={}, props=["C09", "C08"],
+        inline=["combine_mode_swap_dicts"],
+    )
+    con.no_callee = True
+    con.label = label
+    return con
+
+
+def _img2(p, q, x):
+    return f"({q} if {x} == {p} else ({p} if {x} == {q} else {x}))"
+
+
+COMPRESS = [_compress("PS", "swap, phase shifter, swap"), _compress("LOSS", "swap, loss, swap"), _compress("BS", "swap, beam splitter, swap"),
+            _compress("GROUP3", "swap, group over three modes, swap")]
+CONTRACTS += COMPRESS
